@@ -41,14 +41,17 @@ func genMsg(r *Rng) []byte {
 	case 3:
 		return r.Bytes(r.Range(1, 40), nil)
 	case 4:
-		return r.Bytes(r.Range(120, 140), []byte("abcdefghij \n\"=,{}"))
+		// around the step of the length prefix from one byte to two (127 | 128)
+		return r.Bytes(r.PickInt(126, 127, 127, 128, 128, 129, r.Range(120, 140)), []byte("abcdefghij \n\"=,{}"))
 	default:
 		return r.Bytes(r.Range(1, 24), []byte("abcdefghijklmnopqrstuvwxyz 0123456789:=,\"{}\\\n"))
 	}
 }
 
-var fldKeys = []string{"a", "host", "k1", "", "x y", "\xff\x00", "name"}
-var fldVals = []string{"", "1", "v", "a=b", "x,y", "\"q\"", "\x80\x81", "long-value-0123456789"}
+// names and values incl. the ones the printer has to quote only at an edge of the text (a brace at the beginning of the
+// first name / the end of the last value) or because of their first character (separator, quote, blank, back quote)
+var fldKeys = []string{"a", "host", "k1", "", "x y", "\xff\x00", "name", "{k", "k}", " k", "=k", "`k"}
+var fldVals = []string{"", "1", "v", "a=b", "x,y", "\"q\"", "\x80\x81", "long-value-0123456789", "v}", "{v", ",x", "=x", "\"x", "x ", " x", "`x"}
 
 // binary fields made by the real constructor, or (raw) any bytes
 func genBinFields(r *Rng, raw bool) []byte {
@@ -80,7 +83,24 @@ var kvPool = []string{"", "", "f=1", "host=h1,dc=x", "k=\"a,b\"", "a=b, c=d", "{
 	// quoted literals that do not unquote
 	"k=\" lead\"", "k=\"trail \",j=1", "k=\"`bq\"", "{}", "  ", "{a=b", "a=`x", "a=\"x\\q\""}
 
-func genKV(r *Rng) string { return kvPool[r.Intn(len(kvPool))] }
+func genKV(r *Rng) string {
+	if r.Chance(1, 40) {
+		return manyKV(r.PickInt(19, 20, 21, 25), "k")
+	}
+	return kvPool[r.Intn(len(kvPool))]
+}
+
+// n plain pairs: the field parser splits into a fixed array of 40 pieces first (20 pairs), more have to work as well
+func manyKV(n int, name string) string {
+	var sb strings.Builder
+	for i := 0; i < n; i++ {
+		if i > 0 {
+			sb.WriteByte(',')
+		}
+		fmt.Fprintf(&sb, "%s%d=v%d", name, i, i*7)
+	}
+	return sb.String()
+}
 
 func genAE(r *Rng) AE {
 	e := AE{Ts: genTs(r), Msg: genMsg(r), Flds: genKV(r)}
@@ -802,6 +822,33 @@ func unitJobs(c *Ctx) []UnitReplay {
 			enc, shape = mangle(r, enc)
 		}
 		jobs = append(jobs, UnitReplay{Kind: "evsdec", Buf: enc, Shape: shape})
+	}
+	// one event with fields: Marshal into every buffer size below its size; field lists of one byte (header bit and size
+	// depend on len(Fields) > 0, whatever the list is); a packet whose count is at the ends of uint32
+	{
+		e := LE{Ts: -2, Msg: r.Bytes(130, []byte("m")), Flds: []byte("\x01k\x03v=1")}
+		full := len(marshalLE(e))
+		for sz := 0; sz < full; sz++ {
+			if sz < 14 || sz > full-10 || sz%16 == 0 {
+				e2 := e
+				jobs = append(jobs, UnitReplay{Kind: "leencshort", Le: &e2, N: uint64(sz)})
+			}
+		}
+		for _, f := range [][]byte{{0}, {'A'}, {0, 0}, {1, 'k', 0}} {
+			e1 := LE{Ts: 7, Msg: []byte("one-byte-fields"), Flds: f}
+			jobs = append(jobs, UnitReplay{Kind: "leenc", Le: &e1})
+			jobs = append(jobs, UnitReplay{Kind: "ledec", Prev: &LE{Flds: []byte("\x01p\x01q")}, Buf: marshalLE(e1), Shape: "valid"})
+		}
+		evs := []AE{{Ts: 1, Msg: []byte("a")}, {Ts: 2, Msg: []byte("b")}}
+		for _, cnt := range [][]byte{{0xff, 0xff, 0xff, 0xff}, {0x80, 0, 0, 0}, {0x7f, 0xff, 0xff, 0xff}, {0, 0, 1, 2}, {0, 0, 0, 0}} {
+			enc, _, _ := rpc.VC01EncodeWritePacket("a=1", "", toApis(evs))
+			idx := len(enc)
+			for _, e := range evs {
+				idx -= rpc.VC01LogEventSize(toApi(e))
+			}
+			copy(enc[idx-4:idx], cnt)
+			jobs = append(jobs, UnitReplay{Kind: "wpiter", Buf: enc, Ops: []bool{true, false, true, false, true, true, false, true}, Shape: "count-at-uint32-ends"})
+		}
 	}
 	// one result, cut at every position of its count and of the request that follows the events
 	{
